@@ -14,6 +14,7 @@ manifest:
 extras:
 	bin/check X01
 	bin/check X02
+	bin/check X03
 # every seeded change against the check that is expected to detect it (about an hour)
 sweep:
 	python3 tools/seedsweep.py -j 3
